@@ -170,6 +170,52 @@ Definition step (c : config) (cb : callback) (n : nat) (s : state) (l : label) :
   | LCancel => if cancelled s then None else Some (set_cancelled s)
   end.
 
+(* ---- a variant used only to characterise WHY the order matters ----
+   The worker of the code records its result (broken, err) BEFORE it gives the
+   slot back.  [step_work_swapped] is the worker with the two swapped: when the
+   callback has returned it first releases the slot, then records the result,
+   then calls wg.Done.  The statuses are reused with this reading:
+     Posted = slot released, result not yet recorded;  DoneWG = result recorded;
+     Gone   = wg.Done executed.                                                  *)
+Definition step_work_swapped (c : config) (cb : callback) (n : nat) (s : state) (i : nat) : option state :=
+  if n <=? i then None else
+  match st s i with
+  | Spawned => Some (set_calls (set_st s i (Running 0)) (upd (calls s) i (S (calls s i))))
+  | Running k =>
+      match nth_error (cb_outs (cb i)) k with
+      | Some v => Some (set_out (set_st s i (Running (S k))) (out s ++ [v]))
+      | None =>
+          match bound c with
+          | None => Some (set_st s i Posted)
+          | Some _ =>
+              if held s =? 0 then Some (set_panicked (set_st s i Posted))
+              else Some (set_held (set_st s i Posted) (held s - 1))
+          end
+      end
+  | Posted =>
+      let kd := cb_kind (cb i) in
+      Some (set_errs (set_broken (set_st s i DoneWG) (broken s || is_breaker kd))
+                     (errs s ++ fail_of kd))
+  | DoneWG =>
+      if wg s =? 0 then Some (set_panicked s)
+      else Some (set_wg (set_st s i Gone) (wg s - 1))
+  | _ => None
+  end.
+
+Definition step_swapped (c : config) (cb : callback) (n : nat) (s : state) (l : label) : option state :=
+  if panicked s then None else
+  match l with
+  | LDisp => step_disp c n s
+  | LWork i => step_work_swapped c cb n s i
+  | LCancel => if cancelled s then None else Some (set_cancelled s)
+  end.
+
+Fixpoint exec_swapped (c : config) (cb : callback) (n : nat) (s : state) (ls : list label) : option state :=
+  match ls with
+  | [] => Some s
+  | l :: r => match step_swapped c cb n s l with Some s' => exec_swapped c cb n s' r | None => None end
+  end.
+
 (* run a schedule (used for the refutation witnesses) *)
 Fixpoint exec (c : config) (cb : callback) (n : nat) (s : state) (ls : list label) : option state :=
   match ls with
